@@ -234,6 +234,8 @@ def run_one(tape: Any, cfg: Dict[str, Any], forbid: FrozenSet[str] = frozenset()
                             break
         if w.stats.get('gc_close', 0):
             w.probe('gc_closed_socket')
+        if any(pr.reuse_count for pr in w.procs.values()):
+            w.probe('fd_reused')
         res.nontrivial = aborted or up_kind != 'serve' or faults
         res.features = g.features
         res.states = states
